@@ -453,11 +453,44 @@ class Fn:
         if not isinstance(o, dict):
             return ("other", str(o))
         if "const" in o:
+            m = re.search(r"promoted\[(\d+)\]", o["const"])
+            if m:
+                v = self.promoted_value(int(m.group(1)))
+                if v is not None:
+                    return v
             return ("const", o["const"], o.get("int"))
         pl = o.get("copy") or o.get("move")
         if pl is None:
             return ("other", str(o))
         return self.place_expr(pl, depth, _seen)
+
+    def promoted_value(self, n):
+        """Value of a promoted constant (`&ExprClass::PureNoTrap`, `&[..]`) from its tiny MIR body."""
+        prom = self.f.get("promoted", [])
+        if n >= len(prom):
+            return None
+        stmts = [st for b in prom[n]["blocks"] for st in b["s"]]
+        by = {st["lhs"]["l"]: st["rv"] for st in stmts if not st["lhs"]["p"]}
+
+        def val(l, d=4):
+            rv = by.get(l)
+            if rv is None or d == 0:
+                return ("other", "promoted")
+            if rv["k"] == "ref":
+                return ("ref", val(rv["of"]["l"], d - 1)) if not rv["of"]["p"] else ("other", "promoted")
+            if rv["k"] == "agg":
+                ops = []
+                for o in rv["ops"]:
+                    if "const" in o:
+                        ops.append(("const", o["const"], o.get("int")))
+                    else:
+                        pl = o.get("copy") or o.get("move")
+                        ops.append(val(pl["l"], d - 1) if pl and not pl["p"] else ("other", "?"))
+                return ("agg", norm(rv["adt"]), rv["variant"], ops)
+            if rv["k"] == "use" and "const" in rv["a"]:
+                return ("const", rv["a"]["const"], rv["a"].get("int"))
+            return ("other", "promoted")
+        return val(0)
 
     def place_expr(self, pl, depth=12, _seen=None):
         base = self._local_expr(pl["l"], depth, _seen or frozenset())
